@@ -156,7 +156,7 @@ def concrete_playback(name, timeout_s, log_dir, cbmc_args=()):
     """ask Kani for the counterexample as a Rust unit test (text)"""
     r = run_harness(name, timeout_s, log_dir + "/playback",
                     extra=["-Z", "concrete-playback", "--concrete-playback=print"],
-                    cbmc_args=cbmc_args, vmem_kb=40_000_000)
+                    cbmc_args=cbmc_args, vmem_kb=45_000_000)
     out = open(r["log"], errors="replace").read()
     tests = PLAYBACK_RE.findall(out)
     return tests, r
